@@ -2,7 +2,11 @@ package main
 
 import (
 	"bytes"
+	"crypto/ecdh"
+	stdecdsa "crypto/ecdsa"
+	stded25519 "crypto/ed25519"
 	"crypto/elliptic"
+	"crypto/x509"
 	"fmt"
 	"math/big"
 
@@ -19,6 +23,7 @@ import (
 	"github.com/cloudflare/pat-go/util"
 
 	"verif/bx"
+	"verif/mc"
 	"verif/px"
 )
 
@@ -51,6 +56,43 @@ func derInt(b []byte) []byte {
 		b = append([]byte{0}, b...)
 	}
 	return append([]byte{0x02, byte(len(b))}, b...)
+}
+
+// foreignSPKI: well-formed SubjectPublicKeyInfo structures of keys that are not RSA token keys
+// (a peer can publish any of them as "its token key"), and the token key in its legacy form.
+func foreignSPKI(w *bx.World) []bx.Seed {
+	var out []bx.Seed
+	add := func(name string, pub any) {
+		b, err := x509.MarshalPKIXPublicKey(pub)
+		if err != nil {
+			panic(err)
+		}
+		out = append(out, bx.Seed{Name: "spki-" + name, Msg: b, Fields: []bx.Field{{1, 1}}})
+	}
+	for _, c := range []elliptic.Curve{elliptic.P224(), elliptic.P256(), elliptic.P384(), elliptic.P521()} {
+		k, err := stdecdsa.GenerateKey(c, mc.NewStream(0, "c03-foreign-spki-"+c.Params().Name))
+		if err != nil {
+			panic(err)
+		}
+		add("ecdsa-"+c.Params().Name, &k.PublicKey)
+	}
+	edPub, _, err := stded25519.GenerateKey(mc.NewStream(0, "c03-foreign-spki-ed25519"))
+	if err != nil {
+		panic(err)
+	}
+	add("ed25519", edPub)
+	xk, err := ecdh.X25519().GenerateKey(mc.NewStream(0, "c03-foreign-spki-x25519"))
+	if err != nil {
+		panic(err)
+	}
+	add("x25519", xk.PublicKey())
+	pk, err := ecdh.P256().GenerateKey(mc.NewStream(0, "c03-foreign-spki-ecdh-p256"))
+	if err != nil {
+		panic(err)
+	}
+	add("ecdh-p256", pk.PublicKey())
+	add("rsa-legacy-form", &w.W2.Key.PublicKey)
+	return out
 }
 
 func targets(w *bx.World) []target {
@@ -279,7 +321,7 @@ func targets(w *bx.World) []target {
 	add(target{Name: "util.UnmarshalTokenKey", Run: func(in []byte) bool {
 		_, err := util.UnmarshalTokenKey(in)
 		return err == nil
-	}, Seeds: []bx.Seed{{Name: "spki", Msg: w.SPKI, Fields: []bx.Field{{1, 3}, {5, 1}, {72, 3}}}}})
+	}, Seeds: append([]bx.Seed{{Name: "spki", Msg: w.SPKI, Fields: []bx.Field{{1, 3}, {5, 1}, {72, 3}}}}, foreignSPKI(w)...)})
 
 	add(target{Name: "ecdsa.VerifyASN1", Step: true, Run: func(in []byte) bool {
 		return ecdsa.VerifyASN1(&w.EcKey.PublicKey, w.EcDigest, in)
